@@ -421,6 +421,11 @@ def run(ctx):
     ctx.setcount('passthrough_call_sites', ncur)
     ctx.floor('passthrough_call_sites', 3)
     ctx.sample({'functions_returning_the_current_step': sorted(ret_cur)[:40], 'passthrough': {k: sorted(v) for k, v in passthrough.items()}})
+    # (6c) "planning never fails with an internal error", one decidable part: the model planner only receives selects FROM a model (C10's route table)
+    from .C10 import select_route_table
+    for label, ok, msg, line in select_route_table(ctx):
+        ctx.ob('C09.exceptions', f'plan_select_identifier:{label}', ok, msg, file='mindsdb_sql/planner/query_planner.py', line=line,
+               witness='with a as (select * from int1.t), b as (select * from a join mindsdb.pred) select * from a')
     # (7) steps remembered for later reference by top-level steps are never of a kind that can sit inside a map-reduce partition -------------------
     part_kinds = set()
     for f, fn in all_fns:
